@@ -44,14 +44,20 @@ impl AdjacencyMatrix {
             && (pmin(a, b) < u || (pmin(a, b) == u && pmax(a, b) < v))),
     @*/
 
-    /*@fn impl=AdjacencyMatrix trait=Converse name=converse props=C11,C13
+    /*@fn impl=AdjacencyMatrix trait=Converse name=converse props=C11,C13 iterinline=arcs=>ArcsIterator::new
     requires
         self.wf(),
     ensures
         r.wf(),
         r.order == self.order,
         forall|a: int, b: int| #![trigger r.has(a, b)] r.has(a, b) == self.has(b, a),
-    @manual `for (u, v) in self.arcs() {` => `let mut arcs_it = ArcsIterator::new(self); while let Some((u, v)) = arcs_it.next() invariant converse_inv(*self, arcs_it, converse, last) ensures arcs_done(arcs_it) decreases self.ncells() - last {` :: arcs() returns `impl Iterator` of the private ArcsIterator whose `next` is an inherent fn after rule E1; this is the language-defined desugaring of the for loop with the body of `arcs()` inlined
+    @loop 1
+    invariant
+        converse_inv(*self, arcs_it, converse, last),
+    ensures
+        arcs_done(arcs_it),
+    decreases
+        self.ncells() - last,
     @before `for (u, v) in self.arcs()`
         let ghost mut last: int = -1;
     @after `converse.add_arc(`
@@ -67,7 +73,7 @@ impl AdjacencyMatrix {
         }
     @*/
 
-    /*@fn impl=AdjacencyMatrix trait=Union name=union props=C11,C20,C13
+    /*@fn impl=AdjacencyMatrix trait=Union name=union props=C11,C20,C13 iterinline=arcs=>ArcsIterator::new
     requires
         self.wf(),
         other.wf(),
@@ -77,7 +83,13 @@ impl AdjacencyMatrix {
         forall|a: int, b: int| #![trigger r.has(a, b)] r.has(a, b) == (self.has(a, b) || other.has(a, b)),
     @fn_start
         let ghost other0 = *other;
-    @manual `for (u, v) in other.arcs() {` => `let mut arcs_it = ArcsIterator::new(other); while let Some((u, v)) = arcs_it.next() invariant union_inv(*self, other0, *other, arcs_it, union, last) ensures arcs_done(arcs_it) decreases other.ncells() - last {` :: arcs() returns `impl Iterator` of the private ArcsIterator whose `next` is an inherent fn after rule E1; this is the language-defined desugaring of the for loop with the body of `arcs()` inlined
+    @loop 1
+    invariant
+        union_inv(*self, other0, *other, arcs_it, union, last),
+    ensures
+        arcs_done(arcs_it),
+    decreases
+        other.ncells() - last,
     @before `for (u, v) in other.arcs()`
         let ghost mut last: int = -1;
     @after `union.add_arc(`
